@@ -674,6 +674,20 @@ pub fn cycle_outcome(c: &CycleCase) -> Outcome {
                         break;
                     }
                 }
+                // the permanent peer reads what it is sent (a peer that never reads would, after
+                // enough cycles, fill its socket buffer and legitimately block a DEALER's send)
+                while let Some(Ok(n)) = perm.read_some(Duration::from_millis(0)).await {
+                    if n == 0 {
+                        break;
+                    }
+                }
+                if perm.inbuf.len() > (1 << 20) {
+                    if let Some(from) = perm.traffic_from {
+                        let p = refcodec::parse_stream(&perm.inbuf[from..], refcodec::Strictness::EMITTED);
+                        let keep_from = from + p.consumed;
+                        perm.inbuf.drain(from..keep_from);
+                    }
+                }
                 // the application keeps using the socket: a receive loop / a send now and then
                 if kind.fair_queue_recv() {
                     use zeromq::SocketRecv;
